@@ -421,6 +421,16 @@ func GetSignalCells(
 
 	numSignalCells := utils.GetNumberOfSignalCells(bitStream, pos, bitsPerCell)
 
+	// The masks in the header say how many signal cells the message carries.
+	// If the message (the frame without its CRC) is long enough to hold them,
+	// use that number rather than the one inferred from the trailing bits,
+	// which is misled by padding bytes, by the CRC and by cells whose trailing
+	// fields are all zero.
+	bitsLeftInMessage := int(bitsLeft) - utils.CRCLengthBits
+	if header.NumSignalCells*int(bitsPerCell) <= bitsLeftInMessage {
+		numSignalCells = header.NumSignalCells
+	}
+
 	if header.MultipleMessage {
 		// The message doesn't contain all the signal cells but there should be
 		// at least one.
